@@ -118,6 +118,22 @@ class ServerNode:
         return reply
 
 
+def _token_of(text: str) -> Any:
+    """The token (first parameter) of the first element of a request text."""
+    import json as _json
+    try:
+        doc = _json.loads(text)
+    except ValueError:
+        return None
+    el = doc[0] if isinstance(doc, list) and doc else doc
+    p = el.get('params') if isinstance(el, dict) else None
+    if isinstance(p, list) and p:
+        return p[0] if isinstance(p[0], str) else None
+    if isinstance(p, dict):
+        return p.get('tok') if isinstance(p.get('tok'), str) else None
+    return None
+
+
 # --- the network -----------------------------------------------------------------------------------------------------
 def no_fault_plan() -> Dict[str, Any]:
     return {'pre': 0.0, 'post': 0.0, 'req': None, 'resp': None, 'exc': None, 'exc_when': 'before'}
@@ -136,43 +152,64 @@ class SimNet:
         self.attempt = 0
         self.sent: List[str] = []
         self.raised: List[BaseException] = []   # exception objects raised to the client, in order
+        self.keyed_scripts: Dict[str, List[Dict[str, Any]]] = {}
+        self.keyed_attempts: Dict[str, int] = {}
+        self.current_key: Any = None
+        self.raised_keyed: Dict[Any, List[BaseException]] = {}
+        self.current_keyed_attempt = 0
 
-    def _plan(self) -> Dict[str, Any]:
+    def _plan(self, text: str = '') -> Dict[str, Any]:
         k = self.attempt
         self.attempt += 1
-        if k < len(self.script):
+        script = self.script
+        if self.keyed_scripts:
+            # concurrent callers: each request (identified by the token in its first element) has its own script and
+            # its own attempt counter
+            key = _token_of(text)
+            script = self.keyed_scripts.get(key, [])
+            k = self.keyed_attempts.get(key, 0)
+            self.keyed_attempts[key] = k + 1
+            self.current_key = key
+            self.current_keyed_attempt = k
+        if k < len(script):
             p = dict(no_fault_plan())
-            p.update(self.script[k])
+            p.update(script[k])
             return p
         return no_fault_plan()
 
-    def _raise(self, kind: str, where: str) -> BaseException:
+    def _raise(self, kind: str, where: str, key: Any = None, attempt: Optional[int] = None) -> BaseException:
         exc = EXC_FACTORIES[kind]()
         self.raised.append(exc)
+        if self.keyed_scripts:
+            self.raised_keyed.setdefault(key, []).append(exc)
         self.world.rec(self.name, 'wire.raise', exc=type(exc).__name__, where=where, oid=self.world.ordinal(exc),
-                       attempt=self.attempt - 1)
+                       attempt=self.attempt - 1 if attempt is None else attempt, key=key)
         return exc
 
     def _flow(self, text: str, is_notification: bool) -> Generator[Tuple[str, Any], Any, Optional[str]]:
         """The exchange as a generator of effects: ('sleep', d) and ('serve', text)."""
         w = self.world
-        plan = self._plan()
+        plan = self._plan(text)
         k = self.attempt - 1
+        key = None
+        if self.keyed_scripts:
+            key, k = self.current_key, self.current_keyed_attempt
+            w.plan[('attempt', self.name, key)] = k
         self.sent.append(text)
         w.plan['attempt:' + self.name] = k
-        w.rec(self.name, 'wire.send', attempt=k, text=text, notification=bool(is_notification))
+        w.rec(self.name, 'wire.send', attempt=k, text=text, notification=bool(is_notification), key=key)
         if plan['pre']:
             yield ('sleep', plan['pre'])
         if plan['exc'] and plan['exc_when'] == 'before':
             w.fault('raise_exc', exc=plan['exc'], when='before')
-            raise self._raise(plan['exc'], 'before')
+            raise self._raise(plan['exc'], 'before', key, k)
         req_text: Optional[str] = text
         if plan['req']:
             kind = plan['req'][0]
             if kind == 'lost':
                 w.fault('req_lost')
                 yield ('sleep', self.timeout)
-                raise self._raise(plan['req'][1] if len(plan['req']) > 1 else 'timeout', 'req_lost')
+                raise self._raise(plan['req'][1] if len(plan['req']) > 1 else 'timeout', 'req_lost', key, k)
             req_text = F.apply_req_fault(text, plan['req'])
             if req_text != text:
                 w.fault('req_' + kind, text=req_text)
@@ -195,7 +232,7 @@ class SimNet:
             w.fault('resp_lost', exc=plan['exc'])
             if plan['post']:
                 yield ('sleep', plan['post'])
-            raise self._raise(plan['exc'], 'after')
+            raise self._raise(plan['exc'], 'after', key, k)
         if plan['resp']:
             new_text = F.apply_resp_fault(reply_text, plan['resp'], text, w)
             if new_text != reply_text:
@@ -203,7 +240,7 @@ class SimNet:
             reply_text = new_text
         if plan['post']:
             yield ('sleep', plan['post'])
-        w.rec(self.name, 'wire.deliver', attempt=k, text=reply_text)
+        w.rec(self.name, 'wire.deliver', attempt=k, text=reply_text, key=key)
         return reply_text
 
     def roundtrip(self, text: str, is_notification: bool) -> Optional[str]:
